@@ -5,6 +5,7 @@ import (
 	"fmt"
 	"runtime"
 	"sort"
+	"sync"
 	"time"
 
 	"github.com/brocaar/lorawan"
@@ -120,7 +121,92 @@ func joinAcceptMatchesBytes(ja *lorawan.JoinAcceptPayload, pl []byte) string {
 	return ""
 }
 
+// Join MICs computed while other goroutines compute other join MICs (separate frames, separate keys):
+// every call gives what it gives alone - which the sequential cases compare with the specification.
+func c04Concurrent(c *core.Ctx) {
+	type job struct {
+		up   upJoin
+		key  [16]byte
+		ja   lorawan.JoinAcceptPayload
+		jEUI [8]byte
+		dn   uint16
+		want [2]lorawan.MIC
+	}
+	r := c.RNG("concurrent", 0)
+	mics := func(j *job) (out [2]lorawan.MIC, err error) {
+		phy := j.up.lib()
+		if err = phy.SetUplinkJoinMIC(lorawan.AES128Key(j.key)); err != nil {
+			return
+		}
+		out[0] = phy.MIC
+		ja := j.ja
+		if ja.CFList != nil {
+			cl := *ja.CFList
+			ja.CFList = &cl
+		}
+		acc := lorawan.PHYPayload{MHDR: lorawan.MHDR{MType: lorawan.JoinAccept}, MACPayload: &ja}
+		if err = acc.SetDownlinkJoinMIC(lorawan.JoinRequestType, lorawan.EUI64(j.jEUI), lorawan.DevNonce(j.dn), lorawan.AES128Key(j.key)); err != nil {
+			return
+		}
+		out[1] = acc.MIC
+		return
+	}
+	jobs := make([]*job, 8)
+	for i := range jobs {
+		j := &job{up: upJoin{kind: []string{"joinrequest", "rejoin02", "rejoin1"}[i%3], nonce: uint16(r.U32()), typ: byte(2 * (i % 2))}, key: key16(r), jEUI: eui(r), dn: uint16(r.U32())}
+		r.Fill(j.up.joinEUI[:])
+		r.Fill(j.up.devEUI[:])
+		r.Fill(j.up.netID[:])
+		r.Fill(j.ja.HomeNetID[:])
+		r.Fill(j.ja.DevAddr[:])
+		j.ja.JoinNonce = lorawan.JoinNonce(r.Intn(1 << 24))
+		j.ja.DLSettings.OptNeg = i%2 == 0
+		j.ja.RXDelay = uint8(r.Intn(16))
+		if i%4 < 2 {
+			j.ja.CFList = &lorawan.CFList{CFListType: lorawan.CFListChannel, Payload: &lorawan.CFListChannelPayload{Channels: [5]uint32{867100000, 867300000, 867500000, 867700000, 867900000}}}
+		}
+		var err error
+		if p, _ := core.Guard(func() { j.want, err = mics(j) }); p || err != nil {
+			return // judged by the sequential cases
+		}
+		jobs[i] = j
+	}
+	const rounds = 400
+	bad := make([]string, len(jobs))
+	var wg sync.WaitGroup
+	for gi := range jobs {
+		wg.Add(1)
+		go func(gi int) {
+			defer wg.Done()
+			for k := 0; k < rounds; k++ {
+				var got [2]lorawan.MIC
+				var err error
+				if p, msg := core.Guard(func() { got, err = mics(jobs[gi]) }); p || err != nil {
+					bad[gi] = fmt.Sprintf("round %d: err=%v %s", k, err, msg)
+					return
+				}
+				if got != jobs[gi].want {
+					bad[gi] = fmt.Sprintf("round %d: request / accept MIC %x %x, alone %x %x", k, got[0][:], got[1][:], jobs[gi].want[0][:], jobs[gi].want[1][:])
+					return
+				}
+			}
+		}(gi)
+	}
+	wg.Wait()
+	c.Eval(int64(2 * len(jobs) * rounds))
+	for gi, b := range bad {
+		if b != "" {
+			c.Violate("C04|concurrent", "join MICs of frame %d (%s) computed while %d other goroutines compute theirs differ from the same calls made alone: %s", gi, jobs[gi].up.kind, len(jobs)-1, b)
+			break
+		}
+	}
+	c.Shape("concurrent", len(jobs), rounds)
+}
+
 func runC04(c *core.Ctx) {
+	if c.Whole("concurrent") {
+		c04Concurrent(c)
+	}
 	n := c.N(30000, 20000000)
 	for i := int64(0); i < n; i++ {
 		if !c.Mine("join", i) {
